@@ -19,7 +19,6 @@ package ipfilter
 
 import (
 	"net"
-	"strings"
 
 	"github.com/yl2chen/cidranger"
 
@@ -61,12 +60,13 @@ func New(spec *Spec) *IPFilter {
 		for _, ipcidr := range ipcidrs {
 			ip := net.ParseIP(ipcidr)
 			if ip != nil {
-				mask := allOnesIPv4Mask
-				// https://stackoverflow.com/a/48519490/1705845
-				if strings.Count(ipcidr, ":") >= 2 {
-					mask = allOnesIPv6Mask
+				// the ranger keeps IPv4 and IPv4-mapped IPv6 addresses (::ffff:a.b.c.d) in
+				// its IPv4 trie, so they need the 4-byte form with an IPv4 mask: a 128-bit
+				// mask on such an address makes Insert panic.
+				ipNet := net.IPNet{IP: ip, Mask: allOnesIPv6Mask}
+				if ip4 := ip.To4(); ip4 != nil {
+					ipNet = net.IPNet{IP: ip4, Mask: allOnesIPv4Mask}
 				}
-				ipNet := net.IPNet{IP: ip, Mask: mask}
 				ranger.Insert(cidranger.NewBasicRangerEntry(ipNet))
 				continue
 			}
@@ -75,6 +75,11 @@ func New(spec *Spec) *IPFilter {
 			if err != nil {
 				logger.Errorf("BUG: %s is an invalid ip or cidr", ipcidr)
 				continue
+			}
+			if ip4 := ipNet.IP.To4(); ip4 != nil && len(ipNet.Mask) == net.IPv6len {
+				// an IPv4-mapped prefix (::ffff:a.b.c.d/96+n) is the IPv4 prefix a.b.c.d/n
+				ones, _ := ipNet.Mask.Size()
+				ipNet = &net.IPNet{IP: ip4, Mask: net.CIDRMask(ones-(net.IPv6len-net.IPv4len)*8, net.IPv4len*8)}
 			}
 			ranger.Insert(cidranger.NewBasicRangerEntry(*ipNet))
 		}
